@@ -1020,3 +1020,28 @@ def stale_kill(rng):
     sc['family'] = 'honest'
     sc['essential'] = [2]
     return sc
+
+
+def accept_limit(rng):
+    """(beyond the listed properties) the listener's admission rule: while four connected peers have nothing we want,
+    further incoming connections are turned away; once one of them shows a piece we lack (or leaves), the next is taken."""
+    gname = 'g4'
+    pl, files, n, plens = geo(gname)
+    k = rng.randint(6, 8)
+    peers = [peer(j, set(), serve='none') for j in range(k)]
+    steps = [{'op': 'advance', 'ms': 10}]
+    for j in range(k):
+        steps += [{'op': 'connect', 'peer': j}, send(j, hs())]
+        if rng.random() < 0.5:
+            steps.append(send(j, bf(set())))
+        if j == 4:
+            # one of the first four becomes interesting, or goes away: room for one more
+            if rng.random() < 0.5:
+                steps.append(send(rng.randrange(4), fr('Have', rng.randrange(n))))
+            else:
+                steps.append({'op': 'close', 'peer': rng.randrange(4)})
+            steps.append({'op': 'advance', 'ms': 5})
+    steps.append({'op': 'advance', 'ms': 100})
+    sc = base(gname, peers, steps, [{'k': 'peers', 'peers': []}], pat=rng.randrange(251))
+    sc['family'] = 'accept_limit'
+    return sc
